@@ -692,8 +692,10 @@ impl IndexManager {
             return None;
         }
 
-        let bucket = u8::from_str_radix(&filename[0..2], 16).ok()?;
-        let version = u32::from_str_radix(&filename[2..10], 16).ok()?;
+        // `get` rather than indexing: a 14-byte name with non-ASCII characters
+        // can have a char boundary inside these ranges
+        let bucket = u8::from_str_radix(filename.get(0..2)?, 16).ok()?;
+        let version = u32::from_str_radix(filename.get(2..10)?, 16).ok()?;
 
         Some((bucket, version))
     }
